@@ -24,6 +24,7 @@ def run(chk):
     a64vec.run_fp(chk, A)
     zmask_rule(chk)
     validator_mode_rule(chk)
+    vsib_only_rule(chk)
     return chk.finish(
         level="other",
         explanation=("(a) the generated signature/name/RW tables regenerate byte-identically from db/; (b) for every instruction id of both "
@@ -245,3 +246,60 @@ def validator_mode_rule(chk):
                detail="%s::on_attach() does not (after Base::on_attach) select validate_x86 / validate_x64 by the attached code's mode: a 32-bit target "
                       "is validated with the 64-bit signature tables (aaa / pushad / les rejected, swapgs accepted)" % cls, key="validatormode|%s" % cls)
     chk.floor(R + ":emitters", n, 3)
+
+
+def vsib_only_rule(chk):
+    R = "R-VSIB-NOT-PLAIN-MEM"
+    chk.rule(R, "x86 validate(): the plain memory-operand flags (kMemUnspecified, kMem8 .. kMem512) are never added on a path on which the index "
+                "register type was found to be a vector type (may-analysis from the `index_type == RegType::kVecNNN` edges, ended by the false "
+                "edge of a test of the vm flags): a VSIB operand only matches vm32/vm64 operands of the signature tables")
+    unit = "asmjit/x86/x86instapi.cpp"
+    f = chk.facts(unit, funcs=r"asmjit::x86::InstInternal::validate$|asmjit::x86::[A-Za-z_]*validate[A-Za-z_]*$", enums=r"asmjit::x86::InstDB::OpFlags$")
+    en = f["enums"].get("asmjit::x86::InstDB::OpFlags")
+    chk.need(en is not None, "enum x86::InstDB::OpFlags not found")
+    ev = {n: v for n, v in en["enumerators"]}
+    plain = 0
+    for n_, v in ev.items():
+        if re.match(r"kMem(\d+|Unspecified)$", n_):
+            plain |= v
+    chk.need(plain != 0, "plain memory flags not found in OpFlags")
+    from lib.cfg import forward
+    from lib.must import branch_atoms
+    n = 0
+    for fn in cfg.load_functions(f):
+        sites = []
+        for i, x in sorted(fn.ex.items()):
+            if x["k"] in ("binop", "opcall") and "|=" in (x.get("op") or ""):
+                r = x.get("rhs") if x["k"] == "binop" else (x.get("args") or [None])[-1]
+                rx = fn.e(fn.strip(r)) if r else None
+                val = rx.get("cv") if rx else None
+                if isinstance(val, str) and val.isdigit():
+                    val = int(val)
+                if isinstance(val, int) and (val & plain) and not (val & ~plain):
+                    sites.append(i)
+        if not sites:
+            continue
+        atoms = branch_atoms(fn)
+
+        def edge(b, si, s, st, fn=fn):
+            if b in atoms:
+                atom, pol = atoms[b]
+                holds = (si == 0) == pol
+                x = fn.e(atom)
+                t = "".join(fn.text(atom).split())
+                if x and x["k"] == "binop" and x["op"] == "==" and holds and re.search(r"RegType::kVec(128|256|512)", t) and "index" in t:
+                    return st | {"vec-index"}
+                if x and x["k"] in ("call", "mcall") and x.get("cn") == "test" and "kVmMask" in t and not holds:
+                    return st - {"vec-index"}
+            return st
+        IN, OUT = forward(fn, frozenset(), lambda b, st: st, lambda ss: frozenset().union(*ss), edge=edge)
+        pos = fn.block_of()
+        for i in sites:
+            if i not in pos:
+                continue
+            n += 1
+        bad = [i for i in sites if i in pos and "vec-index" in IN.get(pos[i][0], frozenset())]
+        chk.ob(R, "%s|plain-mem-flags" % fn.name.replace("asmjit::", ""), not bad, loc=fn.loc(bad[0]) if bad else "%s:%d" % (unit, fn.line),
+               detail="`%s` adds a plain memory flag on a path where the index register is a vector register: `mov eax, [rcx + xmm0]` passes "
+                      "validation and is encoded as [rcx + rax]" % (" ".join(fn.text(bad[0]).split())[:50] if bad else ""), key="vsibplain|validate")
+    chk.floor(R + ":flag-sites", n, 8)
